@@ -348,7 +348,7 @@ impl Tokenizer<'_> {
 
             State::Pound(start) => Err(KikiErr::Lex(start, Some('#'))),
 
-            State::OuterAttribute(start, _, end) => self.finish_outer_attribute(start, end),
+            State::OuterAttribute(_, _, _) => Err(KikiErr::Lex(current_index, current)),
         }?;
 
         self.state = State::Main;
